@@ -110,6 +110,32 @@ func ruleP07Chunks(p *Prog, r *Report) {
 			r.check(good, rule, key+":last", p.instrPos(st), "after the chunk that runs to the end of the text no further bytes are cut", "after the chunk that runs to the end of the text further chunks are cut from an earlier position")
 			return
 		}
+		// coverage: n chunks of at least ceil(len/n) bytes reach the end of the text. The end of
+		// a chunk starts at pointer + size and may only be moved FORWARD (to a rune boundary)
+		hphis, hins := phiCycle(sl.High)
+		okGrow := true
+		for _, in := range hins {
+			b, isB := in.(*ssa.BinOp)
+			if !isB || b.Op != token.ADD {
+				okGrow = false
+				continue
+			}
+			if q, isQ := strip(b.X).(*ssa.Phi); isQ && hphis[q] {
+				if k, isK := constInt(b.Y); !isK || k <= 0 {
+					okGrow = false
+				}
+				continue
+			}
+			if strip(b.X) != ssa.Value(ph) && strip(b.Y) != ssa.Value(ph) {
+				okGrow = false
+			}
+		}
+		if len(hphis) == 0 {
+			if b, isB := strip(sl.High).(*ssa.BinOp); !isB || b.Op != token.ADD || (strip(b.X) != ssa.Value(ph) && strip(b.Y) != ssa.Value(ph)) {
+				okGrow = false
+			}
+		}
+		r.check(okGrow, rule, key+":at-least-size", p.instrPos(st), "a chunk ends at pointer + size or later (moved forward only)", "the end of a chunk can be moved backwards from pointer + size: the chunks no longer add up to the whole text and its last bytes are never parsed")
 		good := nextIs(func(v ssa.Value) bool { return sameValue(v, sl.High) })
 		r.check(good, rule, key+":contiguous", p.instrPos(st), "the next chunk starts where this one ends", "the next chunk does not start where this one ends: bytes are dropped or repeated between chunks")
 	})
@@ -816,6 +842,23 @@ func init() {
 	extend("C18", "(P09-first-summary-line) the layout decision about the first summary line is taken on the raw text, never on its styled rendering.", ruleP09FirstSummaryLine)
 	extend("C09", "(P09-first-summary-line) the first entry-summary line is left out only when the raw line is empty. Also (P18-nostyle-applied): print applies --no-style before it obtains the serialiser, so the unstyled output carries no escape sequences.", ruleP18NoStyleApplied, ruleP09FirstSummaryLine)
 	extend("C09", "(P18-format) the text serialiser wraps the unchanged text of dates, values, summaries and tags in styling only, so the unstyled print output carries the file's own text.", ruleP18Format)
+	extend("C09", "(P09-entry-local-format) the notation parse remembers for an entry (dash spacing, placeholder length) derives from that entry's own text, not from a variable that lives across entries.", ruleP09EntryLocalFormat)
+	extend("C10", "(P10-span) an error whose length is a whole line's length starts at column 0, not at the line's current reading position.", ruleP10Span)
+	extend("C14", "(P13-decoders) the --tag decoder hands the flag's text to NewTagFromString as typed (no case mapping), so that the query compares values the way the data side records them.", ruleP13Decoders)
+	extend("C07", "(P07-tail-bytes) countBytes measures a block by the exact original byte length of each of its lines, as ParseBlock counted them.", ruleP07TailBytes)
+	extend("C08", "(P07-tail-bytes) as under C07.", ruleP07TailBytes)
+	extend("C15", "(P15-weeknumber) date.WeekNumber returns both results of ISOWeek of the date's own day, unmodified.", ruleP15WeekNumber)
+	extend("C12", "(P15-weeknumber) as under C15: the week hash of the report is built from it.", ruleP15WeekNumber)
+	extend("C17", "(P17-follow-fresh) today --follow reads the clock at every refresh: the instant given to --now inside the repeated callback is not a reading made before the loop.", ruleP17FollowFresh)
+	extend("C09", "(P09-summary-text) SummaryText.ToString joins all lines of a summary with the canonical line ending.", ruleP09SummaryText)
+	extend("C20", "(P09-summary-text) as under C09: the JSON summary fields are rendered through it.", ruleP09SummaryText)
+	extend("C09", "(P09-rest-of-line) an entry's summary text is the whole rest of its line (Remainder / PeekUntil with a predicate that matches nothing).", ruleP09RestOfLine)
+	extend("C14", "(P09-rest-of-line) as under C09: a tag behind the cut would not be found.", ruleP09RestOfLine)
+	extend("C01", "(P07-head, P07-chunks, P07-tail-bytes) the parallel engine accepts what the serial one accepts: a batch's first block is carried to the merge step exactly as ParseBlock delimits it, the chunks add up to the text, and the tail is cut at the exact byte.", ruleP07Head, ruleP07Chunks, ruleP07TailBytes)
+	extend("C04", "(P17-shift-table) the time that start/stop/switch write is the clock time, rounded, then shifted for the day of the target record — in that order.", ruleP17ShiftTable)
+	extend("C11", "(P05-fresh-read) the text whose style is detected is the unaltered content of the target file (nothing is appended or normalised before parsing).", ruleP05FreshRead)
+	extend("C07", "(P07-crlf-boundary) no chunk ends between the \\r and the \\n of a line ending.", ruleP07CrlfBoundary)
+	extend("C06", "(P06-datetime-near) service.NewDateTime, which steps a day back or forth for shifted times, is applied only to the clock date or to a record date that was compared equal to the clock date or one of its two neighbours.", ruleP06DateTimeNear)
 	extend("C06", "(P17-err) in app/cli and service no error of a time computation is discarded while the possibly-nil time is used (a nil dereference is a crash).", ruleP17Err)
 	extend("C13", "(P15-guards) period strings that do not denote an existing period (W53 of a 52-week year) are rejected; (P14-model, P14-unquote) the tags a summary yields are the unquoted tags the --tag decoder compares with.", ruleP15Guards, ruleP14Model, ruleP14Unquote)
 	extend("C15", "(P12-group) every period of the report is printed in exactly one row.", ruleP12Group)
